@@ -346,3 +346,52 @@ def run(prog, chk):
                   "is stored: a shorter length merges distinct keys, a length taken from another string hides the entry", primary=False, floor=5)
     if memrules.hash_key_length(prog, r5) < 5:
         raise Broken("fewer than 5 uthash insertions found")
+
+    r6 = chk.rule("R6-validator-matches-domain", "each name is (re-)validated by the normaliser of its own kind: a function working on "
+                  "data names (its statements touch loop_item / item_value, or it handles packets) calls cif_normalize_item_name, one "
+                  "working on block / frame codes calls cif_normalize_name - the two accept different lengths and first characters, "
+                  "so the wrong one refuses names the store side accepted", primary=False, floor=8)
+    if validator_domain(prog, r6) < 8:
+        raise Broken("fewer than 8 direct normaliser calls found")
+
+
+ITEM_TABLES = {"loop_item", "item_value"}
+CODE_TABLES = {"data_block", "save_frame"}
+
+
+def validator_domain(prog, rule):
+    from . import c04
+    m = c04.model(prog)
+    tables_of = {}
+    for f, e in m.statements.items():
+        sql = e["sql"].lower()
+        tables_of[f] = {t for t in ITEM_TABLES | CODE_TABLES if re.search(r"\b%s\b" % t, sql)}
+    n = 0
+    for fn in prog.all_functions():
+        calls = [(b, i, r, c) for (b, i, r, c) in fn.calls() if c.get("callee") in ("cif_normalize_name", "cif_normalize_item_name")]
+        if not calls:
+            continue
+        touched = set()
+        for (b, i, r, x) in fn.eval_sites("member"):
+            nm = x.get("name") or ""
+            if nm in tables_of:
+                touched |= tables_of[nm]
+        # the name's kind by the columns it can only have come from / go to
+        item = bool(touched & ITEM_TABLES) or fn.unit in ("packet.c", "pktitr.c")
+        code = bool(touched & CODE_TABLES)
+        for (b, i, r, c) in calls:
+            n += 1
+            key = "%s:L%s:%s" % (fn.name, c.get("l"), c["callee"])
+            if item and not code and c["callee"] == "cif_normalize_name":
+                rule.violation(fn.file, fn.name, c.get("l"), "code-validator-on-data-name:%s" % fn.name,
+                               "%s works on data names (its statements touch %s) but validates with cif_normalize_name, the "
+                               "block / frame code rule: data names of 2044..2048 characters, accepted when stored, are refused here"
+                               % (fn.name, ", ".join(sorted(touched & ITEM_TABLES)) or "packets"))
+            elif code and not item and c["callee"] == "cif_normalize_item_name":
+                rule.violation(fn.file, fn.name, c.get("l"), "name-validator-on-code:%s" % fn.name,
+                               "%s works on block / frame codes (its statements touch %s) but validates with "
+                               "cif_normalize_item_name, which demands a leading underscore" % (fn.name, ", ".join(sorted(touched & CODE_TABLES))))
+            else:
+                rule.ok(key, "tables: %s" % (", ".join(sorted(touched)) or "(none: in-memory)"))
+    return n
+
